@@ -49,7 +49,7 @@ pub fn collect(tier: &str, caps: &Caps, rep: &Report) -> Vec<In> {
         use super::Space;
         for enum_host in [false, true] {
             let sp = super::c14::TraitRep { max_instr: 3, enum_host };
-            let b = if tier == "quick" { Some(5) } else { Some(6) };
+            let b = if tier == "quick" { Some(4) } else { Some(6) };
             let st = explore(|ctx| sp.gen(ctx), b, caps, |ch, c| push("c14/trait-repeat", ch, c.tags.clone(), c.with_repeat.render()));
             rep.add_stats(&format!("c14/trait-repeat({})", if enum_host { "enum" } else { "struct" }), &format!("dev({})", b.unwrap()), &st);
         }
